@@ -90,6 +90,15 @@ class Prop(PropBase):
         'context parsers are replicated by the harness (c12_lang.parser_ops): what they put into the context '
         'is emitted as SetFmt/SetInt of fresh values, or InjectIn of the shortcut parser_args root when the '
         'list parser is handed that list; strings/bools are encoded as ints in observations and model terms',
+        'Tie B (tools/py2coq_c12.py -> Gen/GenC12.v): the table transfer point -> copy discipline is '
+        'regenerated from the current source by an abstract interpretation of 8 functions (sources and '
+        'sinks per point are a signature table in the translator: e.g. self.in_parameters -> argument 0 of '
+        'context.update); it drops docstrings, logger.* calls, asserts; treats copy.deepcopy / list() / '
+        'x + y / .copy() / get_formatted_value / get_formatted / vformat as the primitives DEEP / FRESH / '
+        'REBUILT (the last established from formatting.py itself: every container branch of '
+        '_get_formatted_iterable builds obj.__class__(<generator>) and vformat returns only that); calls '
+        'isinstance/len/str/shlex.split/... are assumed not to return their argument; anything else that '
+        'receives a source value makes the table UNTRANSLATED (proofs stop compiling)',
         'formatting is modelled as: containers rebuilt, {k} deep copy with the formatter memo, {k:ff} and '
         '!py k the same object (Model/Format.v / C08-C09 cover the string rules)',
         'step bodies\' own arguments (set:, append:, contextMerge:, ...) are modelled as immutable trees: '
